@@ -269,6 +269,10 @@ def run(ctx):
     first = _first_stmt(il.node)
     okfirst = isinstance(first, ast.If) and canon(first.test) == "self.finalised" and isinstance(first.body[-1], ast.Return)
     ctx.ob("R-DOM", "C15.3", il, "a finished importance run returns its stored results immediately", okfirst, f"`{src(first)[:80]}`")
+    # running again returns what the run returned: every return of a loop hands back the same expression
+    for lp_ in (lp, il):
+        rv_ = sorted({canon(_expand_props(prog, lp_.cls, r_.value)) for r_ in walk_no_nested(lp_.node) if isinstance(r_, ast.Return) and r_.value is not None})
+        ctx.ob("R-PROV", "C15.3", lp_, "every return of nested_sampling_loop (finished-run short-circuit included) hands back the same quantities", len(rv_) == 1, f"{rv_}")
     inf = ctx.fn(INS + ".finalise")
     ifa = FA(inf)
     first = _first_stmt(inf.node)
@@ -324,6 +328,27 @@ def _first_stmt(fnode):
         return body[1] if len(body) > 1 else None
     return body[0] if body else None
 
+
+
+def _expand_props(prog, cls, e, depth=0):
+    """`self.<p>` replaced by the returned expression of property p when its getter is a single `return <expr>`
+    (so `self.log_evidence` and `self.state.logZ` are one quantity)."""
+    import copy as _copy
+    if depth > 4 or cls is None:
+        return e
+
+    class X(ast.NodeTransformer):
+        def visit_Attribute(self, n):
+            self.generic_visit(n)
+            if isinstance(n.value, ast.Name) and n.value.id == "self" and isinstance(n.ctx, ast.Load):
+                g = prog.find_method(cls, n.attr)
+                if g is not None and g.is_property and not g.is_setter:
+                    body = [s for s in g.node.body if not (isinstance(s, ast.Expr) and isinstance(s.value, ast.Constant))]
+                    if len(body) == 1 and isinstance(body[0], ast.Return) and body[0].value is not None:
+                        return _expand_props(prog, cls, _copy.deepcopy(body[0].value), depth + 1)
+            return n
+
+    return X().visit(_copy.deepcopy(e))
 
 CLAIM = {
     "text": "Decides that the value compared by each loop is the value recorded in the history and comes from the evidence state of the same iteration (standard: condition assigned only in consume_sample after state.increment with the documented form, appended to history['dlogZ']; importance: criterion := compute_stopping_criterion() after update_evidence and before update_history, list built by getattr over the configured criteria, history recorded by the same names); that the loop guards are the documented ones (while condition > tolerance strict, cap tested last; INS break test `reached_tolerance and iteration >= min_iteration` first, cap last; c <= t combined by any iff check_criteria=='any' else all); that finished runs short-circuit (first statement of both loops, finalise guarded / early-returning, finalised set on every path, no repopulation when finalised, remaining live points moved exactly once); and that each INS criterion is the documented expression (ratio, ratio_ns, ess, Z_err, fractional_error, log_dZ, evidence ratios). Criteria and tolerances are paired by position: the criteria are stored in the caller's order (outermost iteration over the caller's list), tolerances element-wise, count mismatch rejected.",
